@@ -120,6 +120,7 @@ Expected(e, A) ==       \* A = converted args;  = [n, err] (+ rd / light where a
          [] e.ev = "Ping" -> NE(RawPing(N), FALSE)
          [] e.ev = "Bogus" -> RawStep(N, S, C, [Msg(A.ty, j) EXCEPT !.from = A.from, !.term = A.term], RT)
          [] e.ev = "Unreachable" -> NE(RawUnreachable(N, S, C, A.j, RT).n, FALSE)
+         [] e.ev = "SetKnob" -> NE(RawSetKnob(N, S, C, A.name, A.j, A.val), FALSE)
          [] e.ev = "ReportSnap" -> NE(RawReportSnapshot(N, S, C, A.j, A.ok, RT).n, FALSE)
          [] e.ev = "RequestSnap" -> RawRequestSnapshot(N, S)
          [] e.ev = "Ready" -> LET r == Ready(N, S, C) IN [n |-> r.n, err |-> FALSE, rd |-> r.rd]
@@ -139,7 +140,7 @@ Expected(e, A) ==       \* A = converted args;  = [n, err] (+ rd / light where a
 Conformable(e) ==
     /\ e.n \in Nodes
     /\ e.ev \in {"Tick", "Deliver", "Propose", "ProposeBatch", "ProposeConf", "ReadIndex", "Transfer", "Campaign",
-                 "Ping", "Bogus", "Unreachable", "ReportSnap", "RequestSnap", "Ready", "AdvanceAsync", "AdvanceAppend",
+                 "Ping", "Bogus", "Unreachable", "SetKnob", "ReportSnap", "RequestSnap", "Ready", "AdvanceAsync", "AdvanceAppend",
                  "Advance", "Notify", "Apply", "Restart", "Init"}
     /\ (e.ev \notin {"Restart", "Init"} => up[e.n])
 
